@@ -78,8 +78,8 @@ Definition oshutdown (s : ostate) (e : Z) : ostate :=
   {| ots := cancel_all (ots s); ovalue := ovalue s + nrunning (ots s);
      ocaller := match ocaller s with
                 | KWait => KOut (OErr e) 0 0
-                | KReacq o => KOut o 0 0          (* unreachable: a re-acquiring caller waits only behind waiting tasks,
-                                                     and then the hand-over above went to one of them ... see Lemmas *)
+                | KReacq o => KOut o 0 0          (* the cancelled tasks give their permits back: the re-acquiring caller
+                                                     gets one and leaves after all of them have finished *)
                 | c => c
                 end;
      oexc := Some e; oshut := true |}.
